@@ -1,18 +1,19 @@
 CONSTANTS
  Brokers = {"b1","b2"}
  Clients = {"m1","m2"}
- MaxReq = 4
- MaxMoves = 2
+ MaxReq = 5
+ MaxMoves = 3
  MaxGen = 1000
  Apis = {"Join","Sync","Heartbeat","Leave","Commit","Fetch"}
  FixInvalidate = {TRUE}
- DevNoLeaseCheck = {"Commit"}
+ DevNoLeaseCheck = {}
  DevKeepOwnedOnNotice = FALSE
  DevAcquireBlind = FALSE
  DevSyncNoPersist = FALSE
  DevRestoreGenZero = FALSE
 INIT Init
 NEXT Next
-PROPERTIES G14_ServedOnlyByHolder
+PROPERTIES AllG
+INVARIANTS OwnedMeansKey HolderInSync
 VIEW View
 CHECK_DEADLOCK FALSE
